@@ -11,13 +11,13 @@ E2 = 'SMT lemmas over kernels translated from /repo source on every run (z3), na
 CLAIMED = {
     # id: (design ref, technique, level text, level note)
     'C01': ('DESIGN.md 4 C01', E1,
-            'Field round trip real encoder -> real decoder (and an independent reader) of a message holding one record of every kind, with every TTL, class word, flush / QU bit, id and SRV number symbolic, over five name sets; kernel lemmas on the real _write_utf / _decode_labels_at_offset (label of symbolic length 1..300), _write_link_to_name (pointer to any offset 12..8950), character-strings 0..255 octets, NSEC bitmap for every type 0..255.',
+            'Field round trip real encoder -> real decoder (and an independent reader) of a message holding one record of every kind, with every TTL, class word, flush / QU bit, id and SRV number symbolic, over five name sets; kernel lemmas on the real _write_utf / _decode_labels_at_offset (label of symbolic length 1..300), _write_link_to_name (pointer to any offset 12..8950), character-strings 0..255 octets, NSEC bitmap for every type 0..255; decoded records carry the receive time and (AAAA only) the scope id of their datagram; E2 lemmas: the real 16-bit / 8-bit packers with their pre-packed tables equal the big-endian encoding for every value.',
             'Trusted: as C05; packer stand-ins (vkit/wire.py), SymPacket view of the element list (vkit/pkt.py), bit-operation handlers. Label contents / suffix-sharing beyond the name sets are not symbolic; splitting and rollback are C14.'),
     'C02': ('DESIGN.md 4 C02', E1,
-            'Totality, linear work budget, name length and faithfulness against a strict RFC 1035 reader of the real DNSIncoming on datagrams whose payload octets are all solver variables (12 + P octets, P <= 5 quick / 7 thorough; record templates with symbolic owner octets, RDLENGTH and rdata octets), every tiling of labels / pointers / fields exhausted; plus enumerated deep compression graphs (3..4470 pointer cells in a row, forward and backward, id / label octet / TTL and one pointer octet symbolic).',
+            'Totality, linear work budget, name length and faithfulness against a strict RFC 1035 reader of the real DNSIncoming on datagrams whose payload octets are all solver variables (12 + P octets, P <= 5 quick / 7 thorough; record templates with symbolic owner octets, RDLENGTH and rdata octets), every tiling of labels / pointers / fields exhausted; plus enumerated deep compression graphs (3..4470 pointer cells in a row, forward and backward, id / label octet / TTL and one pointer octet symbolic), names of 253 / 254 / 300 characters reached through a pointer with a symbolic low octet, two questions with symbolic type / class words (per-question and message-level QU flag), and a decode-error memo pre-filled with 511..5000 entries.',
             'Trusted: as C01. Datagrams with more than 7 free octets are reached only through the enumerated pointer-chain shapes (these found the RecursionError of the original tree, since fixed); label text is opaque (octets compared).'),
     'C03': ('DESIGN.md 4 C03', E1,
-            'Answer sets, per-answer additionals, TTLs and flush marking of QueryHandler.async_response equal a declarative reference responder for every enumerated (registry script, questions, known answers) shape, for all service TTLs 1..2^31-1 and known-answer TTLs 0..2^32-1 (half-TTL boundary solver-decided).',
+            'Answer sets, per-answer additionals, TTLs and flush marking of QueryHandler.async_response - and the answers actually transmitted when the same query goes through the real listener and queues - equal a declarative reference responder for every enumerated (registry script, questions, known answers) shape, for all service TTLs 1..2^31-1 and known-answer TTLs 0..2^32-1 (half-TTL boundary solver-decided).',
             'Trusted: as C05 plus the reference responder in vkit/responder.py. Question types and names are enumerated, not symbolic.'),
     'C07': ('DESIGN.md 4 C07', E1,
             'Smallest instance of the property only: two complete socket-less instances on one fake loop (one registers then unregisters a service, one browses and resolves the service from its Added callback) joined by a link delivering every multicast datagram to both hosts; the registration instant and the delay (0..100 ms) of one or two datagrams are solver variables and one chosen datagram (each of the first ten, each goodbye) is dropped. Convergence (one Added, resolvable incl. TXT, one Removed) within 6 s / 3 s is decided for every value. Further concrete scenarios with the same symbolic instants: a datagram duplicated 0..100 ms later, withdrawal by async_close, an update (new port / TXT), a third host that browses and owns a service.',
